@@ -130,6 +130,8 @@ class ExprMixin:
             qn = mod.qn + "." + n
             if qn in self.reg.globals:
                 return self.glob_get(st, qn)
+            if qn in self.reg.records:
+                return self.vtype(qn)
             if n in mod.functions:
                 return VFunc("repo", mod.functions[n], qn=qn, env=mod)
             if n in mod.classes:
@@ -326,6 +328,8 @@ class ExprMixin:
         return out
 
     def getattr_ref(self, b: VRef, attr, st, cx, node=None):
+        if attr in ("__module__", "__name__", "__qualname__", "__doc__"):
+            return [(st, VStr(z3.FreshConst(z3.StringSort(), "dunder")))]
         cands = self.candidate_classes(st, b)
         # class-level: properties and methods, grouped by implementation
         groups = {}
@@ -885,6 +889,45 @@ class ExprMixin:
                 out.append((s, VTuple(items, is_list=True)))
         return out
 
+    def comprehension_as_loop(self, e, st, cx, kind):
+        """[f(x) for x in xs] with an element expression that calls contracted code, over a symbolic sequence: executed as
+              _compK = []; for x in xs: _compK.append(f(x))
+        under the loop contract  loops['compK']  (K = ordinal of the comprehension in the function)"""
+        if cx.fn_node is None or cx.contract is None:
+            raise Unsupported("impure comprehension over a symbolic sequence outside a function under contract")
+        k = _comp_ordinal(cx.fn_node, e)
+        key = "comp%s" % k
+        if key not in cx.contract.loops:
+            raise Unsupported("comprehension #%s at line %d of %s calls contracted code over a symbolic sequence and has no loop contract '%s'"
+                              % (k, e.lineno, cx.fn, key))
+        g = e.generators[0]
+        var = "_" + key
+        src = "%s = []\nfor _t in _it:\n    %s.append(0)" % (var, var)
+        body = ast.parse(src).body
+        loop = body[1]
+        loop.target = g.target
+        loop.iter = g.iter
+        loop.body[0].value.args[0] = e.elt
+        loop._pyvc_key = key
+        for n in ast.walk(loop):
+            if not hasattr(n, "lineno"):
+                n.lineno = e.lineno
+                n.col_offset = 0
+        ast.fix_missing_locations(loop)
+        hint = cx.contract.loops[key].get("sorts", {}).get(var)
+        st = st.copy()
+        if hint is None:
+            raise Unsupported("loop contract %s needs sorts={'%s': TList(...)}" % (key, var))
+        from .ops import lift_list
+        st.env[var] = lift_list(VTuple([], True), hint)
+        outs = []
+        for s2, oc in self.exec_stmt(loop, st, cx):
+            if oc[0] != "normal":
+                raise Unsupported("comprehension loop left abnormally")
+            v = s2.env.pop(var)
+            outs.append((s2, v))
+        return outs
+
     def bind_target(self, tgt, v, env):
         if isinstance(tgt, ast.Name):
             env[tgt.id] = v
@@ -920,7 +963,7 @@ class ExprMixin:
         r = self.ev(e.elt, s, cx.child(spec=True, acc=acc))
         s.env = saved
         if len(r) != 1 or acc:
-            raise Unsupported("impure element expression in comprehension over symbolic sequence")
+            return self.comprehension_as_loop(e, st, cx, kind)
         v = r[0][1]
         if isinstance(v, VRef):
             ls = TList(Ref)
@@ -931,6 +974,12 @@ class ExprMixin:
         s.pc.append(z3.ForAll([i], z3.Implies(z3.And(i >= 0, i < n), z3.Select(ls.arr(out.t), i) == term_of(v, ls.elem))))
         s.pc.append(canonical_list(out.t, ls))
         return [(s, out)]
+
+
+def _comp_ordinal(fn_node, e):
+    cs = [n for n in ast.walk(fn_node) if isinstance(n, (ast.ListComp, ast.GeneratorExp, ast.SetComp))]
+    cs.sort(key=lambda n: (n.lineno, n.col_offset))
+    return cs.index(e) + 1 if e in cs else None
 
 
 class SymbolicComprehension(Exception):
@@ -957,4 +1006,4 @@ SPEC_BUILTINS = {"implies", "iff", "old", "forall", "exists", "isinst", "cls_is"
                  "field", "len", "str", "all", "any", "range", "int", "bool", "isinstance", "type", "zip", "enumerate",
                  "list", "tuple", "concat", "prefix_of", "seq_eq", "allocated", "unchanged", "strlen", "substr",
                  "startswith", "endswith", "contains", "old_field", "replace", "min", "max", "abs", "index_of", "in_re_ws",
-                 "set_subset", "lemma", "dict_keys", "store", "const_map", "any_value", "monotone", "stable_except", "live", "float_text", "frame", "same_class", "is_new", "is_space", "str_repeat", "pigeonhole", "card", "result_is_new", "str_from_int", "at"}
+                 "set_subset", "lemma", "dict_keys", "store", "const_map", "any_value", "u_is_str", "u_is_obj", "u_str", "u_obj", "monotone", "stable_except", "live", "float_text", "frame", "same_class", "is_new", "is_space", "str_repeat", "pigeonhole", "card", "result_is_new", "str_from_int", "at"}
